@@ -16,6 +16,8 @@ def worker(job, extra):
     f = gen.features(spec)
     if job.get('fault'):
         return fault_run(job, spec, cap, wall)
+    if job.get('explore'):
+        return explore(job, spec, prop, f, cap, wall)
     scope = profiles.PLANS[prop][1]
     if not scope(spec, f):
         return {'job': job, 'skipped': 'out_of_scope'}
@@ -51,6 +53,50 @@ def fault_run(job, spec, cap, wall):
     return res
 
 
+def explore(job, spec, prop, f, cap, wall):
+    """Systematic exploration of tie resolutions of one (small, tie-rich) scenario: depth-first over scripts; the k-th tie
+    situation (between nodes, or between simultaneous individuals of one node) takes choice script[k]. Bounded by job['explore'] runs."""
+    from . import core, profiles
+    if not profiles.PLANS[prop][1](spec, f):
+        return {'job': job, 'skipped': 'out_of_scope'}
+    budget = job['explore']
+    stack = [[]]
+    seen = 0; merged = None; scripts_done = 0; max_ties = 0
+    while stack and seen < budget:
+        script = stack.pop()
+        sp = dict(spec); sp['tie'] = 'script'; sp['tie_script'] = script
+        res = core.evaluate(sp, [prop], cap=min(cap, 3000), wall=wall)
+        seen += 1; scripts_done += 1
+        trace = res.get('tie_trace', [])
+        max_ties = max(max_ties, len(trace))
+        # children: at every tie situation beyond the scripted prefix (default choice 0 was taken) try the other choices
+        for k in range(len(script), min(len(trace), 12)):
+            for c in range(1, min(trace[k], 3)):
+                stack.append(script + [0] * (k - len(script)) + [c])
+        if merged is None:
+            merged = res; merged['spec'] = None
+        else:
+            merged['events_judged'] += res['events_judged']
+            for k_, v in res['counters'].items(): merged['counters'][k_] = merged['counters'].get(k_, 0) + v
+            for k_, v in res['kinds'].items(): merged['kinds'][k_] = merged['kinds'].get(k_, 0) + v
+            for k_, v in res['evtypes'].items(): merged['evtypes'][k_] = merged['evtypes'].get(k_, 0) + v
+            merged['states'] = list(set(merged['states']) | set(res['states']))
+            merged['ties'] += res['ties']; merged['ind_ties'] += res['ind_ties']
+            merged['oracle_errors'] += res['oracle_errors']
+            if res['taint'] and not merged['taint']: merged['taint'] = res['taint']
+        if res['viol'] and not merged.get('viol_spec'):
+            merged['viol'] = res['viol']; merged['viol_spec'] = sp
+    merged['job'] = job
+    merged['explored_scripts'] = scripts_done
+    merged['unexplored_left'] = len(stack)
+    merged['max_tie_situations'] = max_ties
+    merged['sig'] = repr((sorted(f), 'explore', spec.get('name')))
+    if merged.get('viol_spec'): merged['spec'] = merged['viol_spec']
+    merged['sample'] = {'profile': 'explore', 'scenario': spec.get('name', job['seed']), 'scripts': scripts_done, 'max_tie_situations': max_ties,
+                        'events': merged['events_judged']}
+    return merged
+
+
 def decide_value(res, key):
     if key.startswith('kinds.'):
         return res['kinds'].get(key[6:], 0)
@@ -73,6 +119,9 @@ def main(prop, tier, vseed, replay=None):
     else:
         jobs = [{'profile': p, 'seed': s} for p, s in profiles.plan(prop, tier, vseed)]
         jobs += [{'profile': 'pinned', 'seed': k} for k in range(pinned.count(prop))]
+        # systematic tie-resolution exploration of the tie-rich pinned scenarios
+        nexp = 12 if tier == 'quick' else 200
+        jobs += [{'profile': 'pinned', 'seed': k, 'explore': nexp} for k in pinned.explorable()]
         if prop == 'C10':
             import random as _r
             rr = _r.Random(vseed)
@@ -111,6 +160,9 @@ def main(prop, tier, vseed, replay=None):
         status[r['status']] += 1
         events += r['events_judged']
         for k, v in r['counters'].items(): agg[k] += v
+        if r.get('explored_scripts'):
+            agg['tie_scripts_explored'] += r['explored_scripts']; agg['tie_exploration_scenarios'] += 1
+            if r.get('unexplored_left') == 0: agg['tie_exploration_exhausted_scenarios'] += 1
         for k, v in r['kinds'].items(): kinds[k] += v
         for k, v in r['evtypes'].items(): evtypes[k] += v
         states.update(r['states'])
